@@ -255,7 +255,7 @@ class C16(Prop):
         vals.append(('V', [('I', 1), ('I', I_MIN), ('I', -1)]))
         # strings: every escape the reader knows, characters a printer might escape although the reader does not know the escape
         # (apostrophe, question mark, bell, ...), quotes of both styles inside, non-ASCII text
-        for t in ['', 'a', "it's", 'q"q', 'b\\s', 'line\nfeed', 'tab\there', 'cr\rx', "'", '?', 'a b  c', 'é日本', '“curly', '%d {} $x', '#( ~)', '| |', '\\( \\)',
+        for t in ['', 'a', "it's", 'q"q', 'b\\s', 'line\nfeed', 'tab\there', 'cr\rx', "'", '?', 'a b  c', 'é日本', '“curly”', 'a”b', '%d {} $x', '#( ~)', '| |', '\\( \\)',
                   "''", 'x\\', '0x10', '-1']:
             vals.append(('S', t.encode('utf-8')))
             vals.append(('V', [('S', t.encode('utf-8')), ('I', 7)]))
